@@ -1078,6 +1078,23 @@ func (w *worker) doRow(r *row, rowIdx int) {
 			return
 		}
 
+		// the custom codec encodes complete messages by delegating to the built-in codec: same bytes
+		if seed == 0 {
+			out, err, p := encodeBody(codecs.CustomRawCodec, h, &frame.Body{Message: msg})
+			ov.Reencodes++
+			if p != "" {
+				res.report("panic", r, "", seed, "encode complete message", x, p, nil)
+			} else if err != nil || !bytes.Equal(out, x) {
+				res.report("encode-complete-message", r, "", seed, "encode complete message", x,
+					fmt.Sprintf("codecs.CustomRawCodec encodes the reference message differently from the reference codec (error: %v)", err), out)
+			}
+			// a source that is neither a FrameBodyReader nor a bytes.Buffer: any answer but a panic
+			if p := safely(func() { _, _ = codecs.CustomRawCodec.DecodeBody(h, bytes.NewReader(x)) }); p != "" {
+				res.report("panic", r, "", seed, "decode from a plain io.Reader", x, p, nil)
+			}
+			ov.Decodes++
+		}
+
 		// 3. the real partial codec: the proxy's path
 		fieldsOK, baseOK := w.positive(r, h, v, x, 0, rf.Message, seed, "", ov, func(in []byte) decoded {
 			return decodeReader(codecs.CustomRawCodec, h, in)
@@ -1244,10 +1261,21 @@ func (w *worker) variants(r *row, h *frame.Header, v primitive.ProtocolVersion, 
 		}
 		// positive() hands the uncompressed bytes to dec; the compressed frame is decoded instead and the
 		// fields are compared with the uncompressed body
+		cmp := comp
 		w.positive(r, h, v, x, 0, ref, seed, nm, ov, func(_ []byte) decoded {
 			return decodeReader(cc, hc, append([]byte{}, cbytes...))
 		}, func(d decoded) ([]byte, error, string) {
-			return encodeBody(codecs.CustomRawCodec, h, &frame.Body{Message: d.msg})
+			// re-encode through the compressing codec (this is what a client connection with compression
+			// does) and undo the compression with the library's compressor
+			out, err, p := encodeBody(cc, hc, &frame.Body{Message: d.msg})
+			if err != nil || p != "" {
+				return out, err, p
+			}
+			var plain bytes.Buffer
+			if err := cmp.DecompressWithLength(bytes.NewReader(out), &plain); err != nil {
+				return nil, fmt.Errorf("re-encoded compressed body cannot be decompressed: %w", err), ""
+			}
+			return plain.Bytes(), nil, ""
 		})
 	}
 }
